@@ -19,7 +19,8 @@ use ark_ec::{
     twisted_edwards::{self as te, TECurveConfig},
     AffineRepr, CurveGroup,
 };
-use ark_ff::{Field, PrimeField, Zero};
+use ark_ff::{Field, PrimeField, UniformRand, Zero};
+use ark_std::rand::{rngs::StdRng, SeedableRng};
 use num_bigint::BigUint;
 use vharness::*;
 
@@ -406,6 +407,27 @@ impl MontCurveConfig for Te6 {
     type TECurveConfig = Te6;
 }
 
+// te17_a3_incomplete: 20 points, r = 5, cofactor 4
+#[derive(Clone, Default, PartialEq, Eq)]
+pub struct Te7;
+impl CurveConfig for Te7 {
+    type BaseField = F17;
+    type ScalarField = F5;
+    const COFACTOR: &'static [u64] = &[4];
+    const COFACTOR_INV: F5 = MontFp!("4");
+}
+impl TECurveConfig for Te7 {
+    const COEFF_A: F17 = MontFp!("3");
+    const COEFF_D: F17 = MontFp!("5");
+    const GENERATOR: te::Affine<Self> = te::Affine::new_unchecked(MontFp!("16"), MontFp!("3"));
+    type MontCurveConfig = Te7;
+}
+impl MontCurveConfig for Te7 {
+    const COEFF_A: F17 = MontFp!("0");
+    const COEFF_B: F17 = MontFp!("1");
+    type TECurveConfig = Te7;
+}
+
 // END GENERATED TOY CONFIGS
 }
 
@@ -502,6 +524,20 @@ fn run_sw<P: SWCurveConfig>(op: &str, a: &[Arg]) -> Vec<Arg> {
                 },
             }
         },
+        "sw_check" => {
+            let p = sw_aff::<P>(&a[8]);
+            ok(vec![b(p.is_on_curve()), b(p.is_in_correct_subgroup_assuming_on_curve())])
+        },
+        // Distribution<Affine> / Distribution<Projective> for Standard: a[8] = [seed, count]
+        "sw_rand" => {
+            let mut rng = StdRng::seed_from_u64(to_u64(&a[8][0]));
+            let mut out = vec![];
+            for _ in 0..to_usize(&a[8][1]) {
+                out.push(sw_out(&sw::Affine::<P>::rand(&mut rng)));
+                out.push(sw_out(&sw::Projective::<P>::rand(&mut rng).into_affine()));
+            }
+            ok(out)
+        },
         "sw_params" => {
             let r: BigUint = <P::ScalarField as PrimeField>::MODULUS.into();
             ok(vec![
@@ -565,6 +601,19 @@ fn run_te<P: TECurveConfig>(op: &str, a: &[Arg]) -> Vec<Arg> {
                     ])
                 },
             }
+        },
+        "te_check" => {
+            let p = te_aff::<P>(&a[8]);
+            ok(vec![b(p.is_on_curve()), b(p.is_in_correct_subgroup_assuming_on_curve())])
+        },
+        "te_rand" => {
+            let mut rng = StdRng::seed_from_u64(to_u64(&a[8][0]));
+            let mut out = vec![];
+            for _ in 0..to_usize(&a[8][1]) {
+                out.push(te_out(&te::Affine::<P>::rand(&mut rng)));
+                out.push(te_out(&te::Projective::<P>::rand(&mut rng).into_affine()));
+            }
+            ok(out)
         },
         "te_params" => {
             let r: BigUint = <P::ScalarField as PrimeField>::MODULUS.into();
@@ -655,6 +704,7 @@ fn dispatch_te(cfg: u64, op: &str, a: &[Arg]) -> Vec<Arg> {
         4 => run_te::<toy::Te4>(op, a),
         5 => run_te::<toy::Te5>(op, a),
         6 => run_te::<toy::Te6>(op, a),
+        7 => run_te::<toy::Te7>(op, a),
 // END GENERATED TOY TE DISPATCH
         _ => unsupported(),
     }
